@@ -1,7 +1,7 @@
 ------------------------------ MODULE Trace_Hybrid ------------------------------
 (* Trace validation for C06: every recorded HybridEncrypt.Encrypt /              *)
 (* HybridDecrypt.Decrypt call of the real code is judged against HPKE.tla         *)
-(* (RFC 9180 base mode, X-Wing, ML-KEM KEMs) and ECIES.tla.                        *)
+(* (RFC 9180 base mode, X-Wing, ML-KEM KEMs) and ECIES.tla.                    *)
 (*                                                                               *)
 (*  encrypt : Tink produced e.ct for (e.pt, e.info) under the public key of e.skR. *)
 (*            The reference DECRYPTS it with e.skR (randomized output is never    *)
@@ -50,7 +50,7 @@ Oracle(e, param, seed, ct) ==
 
 RefDecrypt(e) ==
   IF e.scheme = "HPKE"
-  THEN TinkDecrypt(Suite(e), e.variant, H(e.id), H(e.skR), H(e.ct), H(e.info), LAMBDA p, s, c : Oracle(e, p, s, c))
+  THEN HpkeTinkDecrypt(Suite(e), e.variant, H(e.id), H(e.skR), H(e.ct), H(e.info), LAMBDA p, s, c : Oracle(e, p, s, c))
   ELSE EciesTinkDecrypt(ECfg(e), e.variant, H(e.id), H(e.skR), H(e.ct), H(e.info))
 
 Judge(e) ==
